@@ -41,8 +41,11 @@ def Parser_parseHeaderList (fuel : Nat) (lines : List Bytes) (headers : HeaderMa
       if (decide ((Cxx.count parts) ≠ (2 : Int))) then
         ((some false), headers)
       else
-        let headers : HeaderMap := (HeaderMap.insert (Qhttp.trim (Cxx.nth parts (0 : Int))) (Qhttp.trim (Cxx.nth parts (1 : Int))) headers)
-        go1 tl_ headers
+        if ((Qhttp.trim (Cxx.nth parts (0 : Int))).isEmpty) then
+          ((some false), headers)
+        else
+          let headers : HeaderMap := (HeaderMap.insert (Qhttp.trim (Cxx.nth parts (0 : Int))) (Qhttp.trim (Cxx.nth parts (1 : Int))) headers)
+          go1 tl_ headers
   match go1 lines headers with
   | (some r_, headers) => (r_, headers)
   | (none, headers) =>
